@@ -44,7 +44,7 @@ class FakeWriter:
         k = sim.write_count
         sim.write_count += 1
         sim.raw_writes.append((self.conn, bytes(b), sim.current_send()))
-        if self.closed or self.peer_gone or sim.fail_write_at == k:
+        if self.closed or self.peer_gone or sim.fail_write_at == k or (bytes(b) in sim.packet_ids and sim.packet_ids[bytes(b)][0] in sim.fail_sids):
             if bytes(b) in sim.packet_ids:
                 sim.emit(f"writeFail {self.conn} {sim.packet_ids[bytes(b)][0]}")
             else:
@@ -80,6 +80,10 @@ class FakeWriter:
             self.sim.emit(f"writerClose {self.conn}")
         self.closed = True
         self.closed_event.set()
+        # as with a real transport: shutting the link ends the stream for whoever still reads from it
+        r = getattr(self, "reader", None)
+        if r is not None and not r._eof and r.exception() is None:
+            r.feed_eof()
 
     def get_extra_info(self, *_):
         return None
@@ -100,6 +104,9 @@ class Sim:
         self.events = []
         self.event_times = []
         self.own_sends = 0
+        self.fail_sids = set()          # send ids whose writes fail (the link resets under them)
+        self.connected_sends = 0
+        self.cb_loop_iters = []         # event-loop iteration in which each receive callback started
         self.raw_writes = []            # (connection, bytes, send id or '-') of every write, whatever it is
         self.expected_packets = {}      # send id -> packets a fresh encoder produces for that message (None: it refuses)
         self.close_raised = []
@@ -173,6 +180,7 @@ class Sim:
                     return f
                 setattr(reader, meth, wrap(getattr(reader, meth)))
             w = FakeWriter(sim, conn)
+            w.reader = reader
             sim.conns.append((conn, reader, w))
             sim.emit(f"implOk {conn}")
             return reader, w
@@ -209,6 +217,14 @@ class Sim:
                 await sim._real_sleep(0.05)
             if sim.status_mode == "close-on-disconnect" and s.name == "DISCONNECTED":
                 await c.close()          # the user gives up on the first fault: close() from inside the status callback
+            if sim.status_mode == "send-on-connected" and s.name == "CONNECTED":
+                # the application greets the gateway whenever the link comes up; the first two links reset under that message
+                import clientcorr
+                sim.connected_sends += 1
+                m = clientcorr.make_msg(240 + min(sim.connected_sends, 14), 1)
+                if sim.connected_sends <= 2:
+                    sim.fail_sids.add(m._sid)
+                await c.send(m)
             if sim.status_mode == "close-on-reconnected" and s.name == "CONNECTED" and sim.status_log.count("CONNECTED") >= 2:
                 await c.close()          # the user closes when the link comes back: close() from inside the reconnect task's connect()
             if sim.status_mode == "connect-on-disconnect" and s.name == "DISCONNECTED":
@@ -226,6 +242,7 @@ class Sim:
         async def recv_cb(m):
             sim.cb_log.append(m)
             sim.emit(f"cb {len(sim.cb_log)}")
+            sim.cb_loop_iters.append(asyncio.get_event_loop().iterations)
             k = next((i + 1 for i, x in enumerate(sim.put_log) if x is m), 0)
             sim.qevents.append(f"cbStart_{k}")
             try:
@@ -355,9 +372,13 @@ class Sim:
                 if not sim.stopping:
                     sim.emit(f"--closeRaised {type(e).__name__}")
                     sim.close_raised.append(type(e).__name__)
+                # a close() that its caller cancelled (wait_for) did not return: what is true afterwards is not promised
+                sim.emit("closeAbort" if isinstance(e, asyncio.CancelledError) and asyncio.current_task().cancelling() > 0 else "closeReturn")
                 raise
-            finally:
-                sim.emit("closeReturn")
+            w = c.writer
+            if w is not None and not getattr(w, "closed", True) and not sim.stopping:
+                sim.emit("--closeReturnedLinkOpen")
+            sim.emit("closeReturn")
         c.close = close
         # sleeps of the client and of its retry machinery (the harness itself uses sim.pause, which is not traced)
         self._real_sleep = asyncio.sleep
